@@ -985,7 +985,12 @@ func (c *Ctx) readerRules() {
 		uses := false
 		for _, a := range ci.Common().Args {
 			if !isWriterProviderType(a.Type()) {
-				continue
+				// the provider inside a parameter struct built at the call
+				if v := literalFieldOfArg(a, func(t types.Type) bool { return isWriterProviderType(t) }); v != nil {
+					a = v
+				} else {
+					continue
+				}
 			}
 			fs := c.funcsOf(inCtx(a, e.in.Parent(), e.ch))
 			uses = len(fs) > 0
@@ -1432,6 +1437,10 @@ func (c *Ctx) wsWriterChoice(rule string) {
 		for _, a := range ci.Common().Args {
 			if isWriterProviderType(a.Type()) {
 				prov = a
+			}
+			// the hooks grouped in a parameter struct built at the call (callEnv{withWriter: …, …})
+			if v := literalFieldOfArg(a, func(t types.Type) bool { return isWriterProviderType(t) }); v != nil {
+				prov = v
 			}
 		}
 		if prov == nil {
@@ -2019,4 +2028,33 @@ func (c *Ctx) errorEmitterAlwaysEmits(rule string) {
 	if n == 0 {
 		c.und(rule, "error-reply function", "-", "no function of the error-reply type found")
 	}
+}
+
+// literalFieldOfArg: the argument is a struct value built by a composite literal right there; the value
+// stored into its (single) field whose type satisfies pred.
+func literalFieldOfArg(a ssa.Value, pred func(types.Type) bool) ssa.Value {
+	ld, ok := a.(*ssa.UnOp)
+	if !ok || ld.Op != token.MUL {
+		return nil
+	}
+	al, ok := ld.X.(*ssa.Alloc)
+	if !ok || al.Referrers() == nil {
+		return nil
+	}
+	if _, isStruct := al.Type().Underlying().(*types.Pointer).Elem().Underlying().(*types.Struct); !isStruct {
+		return nil
+	}
+	var out ssa.Value
+	for _, ref := range *al.Referrers() {
+		fa, ok := ref.(*ssa.FieldAddr)
+		if !ok || fa.Referrers() == nil || !pred(fieldOfAddr(fa).Type()) {
+			continue
+		}
+		for _, r2 := range *fa.Referrers() {
+			if st, ok := r2.(*ssa.Store); ok && st.Addr == ssa.Value(fa) {
+				out = st.Val
+			}
+		}
+	}
+	return out
 }
